@@ -126,6 +126,61 @@ pub fn gen_program_x(rng: &mut Rng, nvars: usize, nops: usize, allow_newvar: boo
         ops.push(Op::Const(false));
     }
     while ops.len() < nops {
+        // two routes to one function (one step in ten): the same operands combined by the same
+        // associative-commutative operation in two different bracketings and orders; a canonical
+        // builder must return the same node for both
+        if ops.len() >= 3 && rng.chance(1, 10) {
+            let len = ops.len();
+            let k = 3 + rng.below(2) as usize;
+            let xs: Vec<usize> = (0..k).map(|_| pick_idx(rng, len)).collect();
+            let conj = rng.coin();
+            let mk = |a: usize, b: usize| if conj { Op::And(a, b) } else { Op::Or(a, b) };
+            // route 1: ((x0 . x1) . x2) . x3
+            let mut acc = xs[0];
+            for &x in xs.iter().skip(1) {
+                ops.push(mk(acc, x));
+                acc = ops.len() - 1;
+            }
+            // route 2: x0 . (x1 . (x2 . x3)) taken from the other end
+            let mut acc2 = xs[k - 1];
+            for &x in xs.iter().rev().skip(1) {
+                ops.push(mk(x, acc2));
+                acc2 = ops.len() - 1;
+            }
+            continue;
+        }
+        // multiplexer pattern (one step in twelve, four or more variables): a three-way case split
+        // on the first three variables — t = a.b, cases t.c / t.!c / !t (random polarities) — with
+        // three different leaf functions over the remaining variables, assembled in two orders
+        if cur_vars >= 4 && rng.chance(1, 12) {
+            let (pa, pb, pc) = (rng.coin(), rng.coin(), rng.coin());
+            let base = ops.len();
+            ops.push(Op::Var(0, pa)); // base
+            ops.push(Op::Var(1, pb)); // base+1
+            ops.push(Op::Var(2, pc)); // base+2
+            ops.push(Op::Var(2, !pc)); // base+3
+            ops.push(Op::And(base, base + 1)); // base+4 : t
+            ops.push(Op::Neg(base + 4)); // base+5 : !t
+            ops.push(Op::And(base + 4, base + 2)); // base+6 : t & c
+            ops.push(Op::And(base + 4, base + 3)); // base+7 : t & !c
+            let hi = |rng: &mut Rng| 3 + rng.below((cur_vars - 3) as u64) as usize;
+            ops.push(Op::Var(hi(rng), rng.coin())); // base+8  : s0
+            ops.push(Op::Var(hi(rng), rng.coin())); // base+9  : s1
+            if rng.coin() {
+                ops.push(Op::Const(rng.coin())); // base+10 : s2
+            } else {
+                ops.push(Op::Neg(base + 9));
+            }
+            ops.push(Op::And(base + 5, base + 8)); // base+11 : !t & s0
+            ops.push(Op::And(base + 6, base + 9)); // base+12 : t & c & s1
+            ops.push(Op::And(base + 7, base + 10)); // base+13 : t & !c & s2
+            // route 1: (u0 | u1) | u2 ; route 2: u2 | (u1 | u0)
+            ops.push(Op::Or(base + 11, base + 12)); // base+14
+            ops.push(Op::Or(base + 14, base + 13)); // base+15
+            ops.push(Op::Or(base + 12, base + 11)); // base+16
+            ops.push(Op::Or(base + 13, base + 16)); // base+17
+            continue;
+        }
         let len = ops.len();
         let i = pick_idx(rng, len);
         let j = pick_idx(rng, len);
